@@ -866,7 +866,14 @@ class EngineWorld:
                     _, exc, k = act[3]
                     key = (name, _hashable(in_uid), "after-collect")
                     c = self.fail_counts.get(key, 0)
-                    if c < k:
+                    if isinstance(k, (list, tuple)):
+                        # a pattern over this event's invocations (1 = raise): failures with successful invocations in between
+                        self.fail_counts[key] = c + 1
+                        if c < len(k) and k[c]:
+                            self.fault("step-failure")
+                            self.probe("raised-after-buffering-collect")
+                            raise EV.make_exc(exc, f"{name}/{in_uid}/f{c}")
+                    elif c < k:
                         self.fail_counts[key] = c + 1
                         self.fault("step-failure")
                         self.probe("raised-after-buffering-collect")
